@@ -18,7 +18,7 @@ from . import signals
 
 PID = 'C20'
 TIMEOUT = 3000.0
-RULE = ('every operation sequence of length 1..D over a 20-operation alphabet from both roots, one forked process per '
+RULE = ('every operation sequence of length 1..D over a 22-operation alphabet from both roots, one forked process per '
         'node; non-trivial = history contains a verbosity override or a raising call after the logger has been set up')
 ASSUMPTIONS = ['worker pools are replaced by the in-process serial pool (the property concerns the logging wrappers)',
                'stdout of every node is /dev/null; the file handler writes under out/tmp',
@@ -27,7 +27,9 @@ ASSUMPTIONS = ['worker pools are replaced by the in-process serial pool (the pro
 LEVELS = ('CRITICAL', 'WARNING', 'INFO', 'DEBUG')
 OPS = ([('set_up', None), ('set_up', 'DEBUG'), ('set_up', 'WARNING'), ('set_up_file', None)] +
        [('set_level', l) for l in LEVELS] + [('disable', None), ('enable', None)] +
-       [('call', v) for v in (None,) + LEVELS] + [('call_raise', v) for v in (None,) + LEVELS])
+       [('call', v) for v in (None,) + LEVELS] + [('call_raise', v) for v in (None,) + LEVELS] +
+       # the same variant twice within a short history (the rotating calls never repeat a variant within 3 steps)
+       [('call_sift', None), ('call_sift', 'CRITICAL')])
 VARIANTS = ('sift', 'mask_sift', 'ensemble_sift')
 
 
@@ -61,7 +63,7 @@ def do_call(variant, x, verbose):
         if not (np.array_equal(freqs, [0.31234567, 0.12345678]) and np.array_equal(amps, [0.71234567, 1.23456789])):
             return np.full_like(out, np.nan)    # options were modified: reported as a result difference
         return np.c_[out, np.resize(np.asarray(used, dtype=float), out.shape[0])]
-    return S.ensemble_sift(x, nensembles=2, max_imfs=2, **kw)
+    return S.ensemble_sift(x, nensembles=2, max_imfs=2, nprocesses=2, **kw)
 
 
 _ref = {}
@@ -109,8 +111,8 @@ def apply_op(op, pos, seed, tmpdir):
             emd.logger.disable()
         elif name == 'enable':
             emd.logger.enable()
-        elif name == 'call':
-            v = VARIANTS[pos % 3]
+        elif name in ('call', 'call_sift'):
+            v = VARIANTS[pos % 3] if name == 'call' else 'sift'
             got = np.asarray(do_call(v, x.copy(), arg)).tobytes()
             if got != references(seed)[v]:
                 viols.append(('result-depends-on-logging', '%s(verbose=%r) returned a different result' % (v, arg)))
